@@ -18,6 +18,7 @@ import scipy.sparse as sps
 from harness.core import Prop, cnat, clist
 
 TOL = 1e-12
+BIOT_UPDATE_KEY = "biot: discretize with update_discretization=True raises TypeError (dict-valued coupling matrices indexed by rows)"
 SHORTCUT_KEY = "split: a later subproblem covers all faces (shortcut replaces the accumulated sum)"
 
 
@@ -31,6 +32,18 @@ def make_grid(spec):
         g = pp.StructuredTriangleGrid(spec["n"])
     elif spec["type"] == "cart3":
         g = pp.CartGrid(spec["n"])
+    elif spec["type"] == "tet":
+        g = pp.StructuredTetrahedralGrid(spec["n"])
+    elif spec["type"] == "prism":
+        # extruded triangle grid: prisms with triangular AND quadrilateral faces, sheared
+        base = pp.StructuredTriangleGrid(spec["n"][:2])
+        base.compute_geometry()
+        g, _, _ = pp.grid_extrusion.extrude_grid(base, np.arange(spec["n"][2] + 1, dtype=float))
+        sh = spec.get("shear", 0.0)
+        g.nodes[0] += sh * g.nodes[2]
+        g.nodes[1] += 0.5 * sh * g.nodes[2]
+        g.compute_geometry()
+        return g
     elif spec["type"] == "delaunay":
         # unstructured triangle grid on given points / on n[0] random points
         if "points" in spec:
@@ -197,29 +210,40 @@ class C14(Prop):
         "faces equal the one-piece rows, in update mode all other rows are untouched, otherwise "
         "zero (C14_partial_update); the boolean certificate family_ok (injective local-to-global "
         "maps, responsibility sets inside them, coverage of all faces) "
-        "implies the structural hypotheses (C14_certificate_sound). The executable bookkeeping "
+        "implies the structural hypotheses (C14_certificate_sound); the family built by the model of subproblems satisfies that "
+        "certificate for EVERY consistent grid, number of parts and partition vector "
+        "(C14_subproblems_family_ok, C14_grid_certificate_sound), hence the gluing theorem "
+        "holds on every consistent grid for every partition (C14_split_sum_on_grid); the graph "
+        "part of locality: every cell around every node of an active face, with all its faces, "
+        "is in the subgrid, in all three modes (C14_locality_from_overlap, _cells_mode, "
+        "_faces_mode). The executable bookkeeping "
         "model (cell_ind_for_partial_update in its three modes, subproblems, repetition counts, "
         "eliminated rows, find_active_indices) is tied to the real functions on every run and "
         "family_ok is evaluated by Coq on every real family of subproblems.")
     level_note = (
-        "Repaired defect (fix f4eeda1b2): Mpfa's 'all faces are mine' shortcut assigned instead "
-        "of added; witness in corpus/C14. NOT proved: locality of the numerical kernel (that a subgrid with the overlap chosen by "
+        "Repaired defects: f4eeda1b2 (Mpfa's 'all faces are mine' shortcut assigned instead of "
+        "added), 56b480682 (cell_ind_for_partial_update returned repeated cells when several "
+        "modes were combined); witnesses in corpus/C14. NOT proved: locality of the numerical kernel (that a subgrid with the overlap chosen by "
         "cell_ind_for_partial_update reproduces the one-piece rows of the faces it is "
         "responsible for) - hypothesis local_ok; it is exactly what the oracle tests: "
         "one-piece vs 1-8 subproblems (num_subproblems and max_memory), partial "
         "discretisation on random cell / face / node sets (rows of the active faces), update "
         "mode after a parameter change on random cells (whole matrix), python vs numba "
-        "inverter, for Mpfa, Mpsa and Biot, relative tolerance 1e-12. The graph lemma "
-        "C14_locality_from_overlap of the design is not proved. pp.partition.partition is "
+        "inverter, for Mpfa, Mpsa and Biot, relative tolerance 1e-12 (the graph part of "
+        "locality is proved, that the kernel's rows depend only on that neighbourhood is not). "
+        "pp.partition.partition is "
         "external (its output is an input of the model). Column maps (cell_map, vector "
         "expansions nd) are abstracted: local matrices have global columns. Biot's cell-row "
         "matrices are compared after partial discretisation only on cells all of whose faces "
-        "are active; Biot's update mode (update_discretization=True) is not exercised.")
+        "are active. Open finding: Biot.discretize with update_discretization=True raises "
+        "TypeError (Biot.update_discretization, the method, is exercised and exact).")
     rule = ("2-D Cartesian (3x3..6x5) and structured triangle grids with perturbed interior "
-            "nodes, few-cell Delaunay triangulations of random points (unbalanced partitions), thorough: also 3x3x2..4x3x3 Cartesian; random anisotropic tensors and mixed "
+            "nodes, few-cell Delaunay triangulations of random points (unbalanced partitions), structured "
+            "tetrahedral grids and sheared extruded triangle grids (prisms: 3- and 4-node faces), thorough: also 3x3x2..4x3x3 Cartesian; random anisotropic tensors and mixed "
             "boundary conditions; kinds: bookkeeping of subproblems(k=1..8) and of "
             "cell_ind_for_partial_update (cells/faces/nodes, single and combined), split "
-            "discretisation, partial discretisation, update after parameter change, inverter "
+            "discretisation, partial discretisation, update after parameter change through discretize(update_discretization=True) "
+            "and through the method update_discretization (modified cells and faces), inverter "
             "backends. Non-trivial = more than one subproblem or a proper active set.")
     trusted = [
         "pp.partition.partition (external; its output is an input of the model)",
@@ -233,6 +257,14 @@ class C14(Prop):
     # ---------------------------------------------------------------- generation
     def _grid(self, rng, tier, small=False):
         r = rng.random()
+        r3 = rng.random()
+        if r3 < 0.12 and not small:
+            # mixed face types (3- and 4-node faces)
+            return {"type": "prism", "n": [rng.randint(1, 2), rng.randint(1, 2), rng.randint(1, 2)],
+                    "shear": rng.choice([0.0, 0.25, 0.5]), "perturb": 0, "pseed": 0}
+        if r3 < 0.2 and not small:
+            n = rng.choice([[2, 2, 1], [2, 1, 1], [2, 2, 2]] + ([[3, 3, 3], [3, 2, 2]] if tier != "quick" else []))
+            return {"type": "tet", "n": n, "perturb": 0, "pseed": 0}
         if tier != "quick" and r < 0.2 and not small:
             n = [rng.randint(3, 4), 3, rng.randint(2, 3)]
             t = "cart3"
@@ -252,26 +284,34 @@ class C14(Prop):
 
     def generate(self, rng, n, tier):
         kinds = ["book_sub", "book_active", "split", "partial", "book_sub", "book_active",
-                 "split", "partial", "update", "inverter", "split", "book_active"]
+                 "split", "partial", "update", "inverter", "split", "book_active",
+                 "update_method", "update_method"]
         for i in range(n):
             kind = kinds[i % len(kinds)]
             case = {"kind": kind, "grid": self._grid(rng, tier, small=kind in ("inverter",)),
                     "dseed": rng.randrange(10**6)}
-            if kind in ("split", "partial", "update", "inverter"):
+            if kind in ("split", "partial", "update", "inverter", "update_method"):
                 case["disc"] = rng.choice(["mpfa", "mpfa", "mpsa", "biot"])
                 if case["grid"]["type"] == "cart3" and case["disc"] != "mpfa":
                     case["grid"]["n"] = [3, 3, 2]
+                if case["grid"]["type"] in ("tet", "prism"):
+                    case["disc"] = "mpfa"  # the vector schemes take minutes per 3-D simplex grid
             if kind in ("book_sub", "split"):
                 case["k"] = rng.randint(1, 8)
                 case["how"] = rng.choice(["num_subproblems", "max_memory"])
             if kind in ("book_active", "partial"):
                 modes = rng.choice([["cells"], ["faces"], ["nodes"], ["cells"], ["nodes"],
                                     ["cells", "faces"] if kind == "book_active" else ["faces"]])
-                case["spec"] = {m: [rng.random() for _ in range(rng.randint(1, 3))] for m in modes}
-            if kind == "update":
+                # node sets are generic (up to a dozen nodes: faces with all / all but one
+                # of their nodes specified); cell and face sets are small
+                case["spec"] = {m: [rng.random() for _ in range(
+                    rng.randint(1, 12) if m == "nodes" else rng.randint(1, 3))] for m in modes}
+            if kind == "update_method" and rng.random() < 0.5:
+                case["disc"] = "biot"  # the only scheme with cell-row matrices
+            if kind in ("update", "update_method"):
                 case["spec"] = {"cells": [rng.random() for _ in range(rng.randint(1, 3))]}
-                if case["disc"] == "biot":
-                    case["disc"] = "mpsa"
+                if kind == "update_method" and rng.random() < 0.3:
+                    case["spec"]["faces"] = [rng.random()]
             yield case
 
     @staticmethod
@@ -410,30 +450,45 @@ class C14(Prop):
             res["diff"] = diff
             return res
 
-        # update: discretise with the tensor scaled on the selected cells by changing the
-        # stored one-piece result through update mode
+        # update: the one-piece result for the OLD parameters is stored, the tensor is scaled
+        # on the selected cells, and the stored matrices are updated either by
+        # discretize(update_discretization=True, specified_cells) or by the method
+        # update_discretization (modified_cells / modified_faces); the result must equal the
+        # one-piece discretisation with the NEW parameters (whole matrices)
+        import warnings
         cells = np.array(sel["cells"])
         scale = np.ones(g.num_cells)
         scale[cells] = 3.0
         dn, datan, _ = setup(disc, g, case["dseed"], "python", cell_scale=scale)
         dn.discretize(g, datan)
-        new_full = flat(datan[pp.DISCRETIZATION_MATRICES][kw])
-        # start from the old matrices, switch to the new parameters, update the cells
-        import warnings
+        new_full = {k: v.copy() for k, v in flat(datan[pp.DISCRETIZATION_MATRICES][kw]).items()}
         datan[pp.DISCRETIZATION_MATRICES][kw] = data0[pp.DISCRETIZATION_MATRICES][kw]
-        datan[pp.PARAMETERS][kw]["update_discretization"] = True
-        datan[pp.PARAMETERS][kw]["specified_cells"] = cells
+        res["sel"] = sel
         with warnings.catch_warnings():
             warnings.simplefilter("ignore")
-            dn.discretize(g, datan)
+            if kind == "update":
+                datan[pp.PARAMETERS][kw]["update_discretization"] = True
+                datan[pp.PARAMETERS][kw]["specified_cells"] = cells
+                try:
+                    dn.discretize(g, datan)
+                except TypeError as e:
+                    if disc != "biot":
+                        raise
+                    res["err"] = "TypeError: " + str(e)[:100]
+                    return res
+            else:
+                faces = np.array(sel["faces"], dtype=int) if sel.get("faces") else np.array([], dtype=int)
+                datan["update_discretization"] = {"modified_cells": cells, "modified_faces": faces}
+                dn.update_discretization(g, datan)
         got = flat(datan[pp.DISCRETIZATION_MATRICES][kw])
         res["diff"] = {k: maxdiff(got[k], new_full[k]) for k in new_full}
-        res["changed"] = {k: maxdiff(new_full[k], full[k]) for k in full}
-        res["sel"] = sel
         return res
 
     # ---------------------------------------------------------------- oracle
     def oracle(self, case, res):
+        if "err" in res:
+            return (f"{case['disc']} {case['kind']}: discretize(update_discretization=True, "
+                    f"specified_cells) raised {res['err']}")
         if "diff" not in res:
             return None
         bad = {k: v for k, v in res["diff"].items() if not (v <= TOL)}
@@ -452,7 +507,7 @@ class C14(Prop):
             subs = clist(res["subs"], csub)
             if elim is None:
                 elim = [sum(1 for f in s["l2g_faces"] if f not in set(s["faces"])) for s in res["subs"]]
-            return (f"tie_sub {cgrid(g)} {cnat(res['num_part'])} {clist(res['part'], cnat)} "
+            return (f"tie_sub_grid {cgrid(g)} {cnat(res['num_part'])} {clist(res['part'], cnat)} "
                     f"{subs} {clist(res['reps'], cnat)} {clist(elim, cnat)}")
         if kind == "book_active":
             g = make_grid(case["grid"])
@@ -485,6 +540,8 @@ class C14(Prop):
         return True
 
     def finding_key(self, case, res, why):
+        if case["kind"] == "update" and case.get("disc") == "biot" and "err" in res:
+            return BIOT_UPDATE_KEY
         if case["kind"] == "split" and any(
                 len(s["faces"]) == res["nf"] for s in res.get("subs", [])[1:]):
             return SHORTCUT_KEY
